@@ -322,6 +322,52 @@ func ruleGateKeys(w *World, r *Report) {
 		}
 	}
 
+	// every other function of core that makes a new Context out of a given one (it copies at least two fields of the
+	// given context into a Context it allocates: a `Detached()`, a `WithTimeout()`) hands the keys on as well: the work
+	// acts for whoever asked for it, and a location that wants keys wants them from a scheduled job as from anybody
+	scFn := w.Method("core", "Context", "SubContext")
+	for _, fn := range w.Funcs {
+		if w.RelPkg(fn) != "core" || isTestFile(w, fn) || fn == scFn || len(fn.Blocks) == 0 {
+			continue
+		}
+		copiedFields := map[ssa.Value]map[string]bool{} // new context -> fields copied from a given one
+		allInstrs(fn, func(in ssa.Instruction) {
+			st, ok := in.(*ssa.Store)
+			if !ok {
+				return
+			}
+			n, f, base, ok := fieldOf(st.Addr)
+			if !ok || n.Obj().Name() != "Context" || n.Obj().Pkg() == nil || n.Obj().Pkg().Path() != modPath+"/core" {
+				return
+			}
+			if _, isAlloc := base.(*ssa.Alloc); !isAlloc {
+				return
+			}
+			n2, f2, base2, ok := loadedField(st.Val)
+			if !ok || n2 != n || f2 != f {
+				return
+			}
+			if _, isParam := base2.(*ssa.Parameter); !isParam {
+				return
+			}
+			if copiedFields[base] == nil {
+				copiedFields[base] = map[string]bool{}
+			}
+			copiedFields[base][f] = true
+		})
+		for base, fs := range copiedFields {
+			if len(fs) < 2 {
+				continue
+			}
+			key := "derive=" + fname(fn)
+			if fs["ReadKey"] && fs["WriteKey"] {
+				r.ok("GATE-KEYS", key, w.Pos(base.Pos()), "a context derived from a given one carries its keys")
+			} else {
+				r.violation("GATE-KEYS", key, w.Pos(base.Pos()), "this function makes a new Context out of a given one (it copies "+itoa(len(fs))+" of its fields) and leaves ReadKey / WriteKey behind: what runs with the new context is refused by a protected location although the caller presented the keys (a scheduled rule of a protected location never acts)")
+			}
+		}
+	}
+
 	// SubContext copies both keys
 	sc := w.Method("core", "Context", "SubContext")
 	for _, field := range []string{"ReadKey", "WriteKey"} {
